@@ -70,6 +70,7 @@ bool AnalyserExternalVariable::addDependency(const VariablePtr &variable)
     auto pimplVariable = AnalyserExternalVariable::variable();
 
     if ((pimplVariable != nullptr)
+        && (variable != nullptr)
         && (owningModel(variable) == owningModel(pimplVariable))
         && (mPimpl->findDependency(variable) == mPimpl->mDependencies.end())
         && !areEquivalentVariables(variable, pimplVariable)) {
